@@ -175,6 +175,49 @@ func (r *Run) ConsensusFuncs() map[*ssa.Function]bool {
 	return r.consensus
 }
 
+// KeyName: the function name used in obligation keys and function-keyed tables. A transparent helper (not in
+// the rule vocabulary) is named after the known function(s) it was reached from, so that extracting a block
+// into a helper does not change construct keys (known findings keep matching) nor table look-ups.
+func (r *Run) KeyName(f *ssa.Function) string {
+	if !r.P.Transparent(f) {
+		return r.P.Name(f)
+	}
+	owners := r.Owners(f)
+	if len(owners) == 0 {
+		return r.P.Name(f)
+	}
+	var ns []string
+	for _, o := range owners {
+		ns = append(ns, r.P.Name(o))
+	}
+	sort.Strings(ns)
+	return strings.Join(ns, "+")
+}
+
+// Owners: nearest non-transparent (known) consensus callers of a transparent function.
+func (r *Run) Owners(f *ssa.Function) []*ssa.Function {
+	seen := map[*ssa.Function]bool{f: true}
+	var out []*ssa.Function
+	q := []*ssa.Function{f}
+	for len(q) > 0 {
+		x := q[0]
+		q = q[1:]
+		for _, c := range r.P.CG.In[x] {
+			if seen[c] || !r.ConsensusFuncs()[c] {
+				continue
+			}
+			seen[c] = true
+			if r.P.Transparent(c) {
+				q = append(q, c)
+			} else {
+				out = append(out, c)
+			}
+		}
+	}
+	sort.Slice(out, func(i, j int) bool { return r.P.Name(out[i]) < r.P.Name(out[j]) })
+	return out
+}
+
 // RequireResolvedStores makes the run undecided when consensus-reachable module
 // code accesses a store whose key (module) could not be resolved: the
 // capability, prefix and flow rules would otherwise silently not see that access.
